@@ -60,7 +60,7 @@ func vfBuildTW(o vfTWOpts) *vfTW {
 	if o.DefAcs != "" {
 		defacs = fmt.Sprintf(`,"defacs":{"auth":"%s","anon":"N"}`, o.DefAcs)
 	}
-	code, fr := t.cl[0].Req(`{"sub":{"id":"$ID","topic":"new1","set":{"desc":{"public":{"fn":"G"}%s},"tags":["tagone","tagtwo"]}}}`, defacs)
+	code, fr := t.cl[0].Req(`{"sub":{"id":"$ID","topic":"new1","set":{"desc":{"public":{"fn":"G","org":{"n":"G"}},"private":{"n":{"k":"init"}}%s},"tags":["tagone","tagtwo"]}}}`, defacs)
 	if code != 200 {
 		vsched.Fail("harness", fmt.Sprintf("create group: %d", code))
 	}
